@@ -410,7 +410,15 @@ _wcases = [(es, dirs) for es in WGRAPHS for dirs in itertools.product((True, Fal
 W4GRAPHS = [[(0, 1), (0, 2), (2, 1), (1, 3), (0, 3)]] + ([[(0, 2), (0, 1), (2, 1), (1, 3), (0, 3)], [(0, 1), (0, 2), (2, 1), (1, 3), (2, 3)]] if T != 'quick' else [])
 _wcases += [(es, (True,) * len(es), 4, [1.0, 4.0, 8.0]) for es in W4GRAPHS]
 ck.bounds['find_weighted_path'] += f'; plus {len(W4GRAPHS)} directed five-edge shapes on 4 nodes with weights in [1, 4, 8]'
-_wfound = ck.parallel([_wcases[i::8] for i in range(8)], lambda chunk: sum(wpath_case(c) for c in chunk), jobs=8 if T != 'quick' else 4)
+# P5 runs the search over the queue order that O1-O3 decide; when that order is already violated the violation is reported from there and
+# the search is not explored under a comparator that is not an order (it need not terminate in reasonable time)
+_order_broken = [v for v in ck.violations if v['obligation'].startswith(('O1', 'O2', 'O3'))]
+if _order_broken:
+    ck.obl['P5_weighted_path_is_a_cheapest_directed_walk']['allow_vacuous'] = True
+    ck.notes.append('P5 skipped: the priority-queue order it relies on is violated (O1-O3)')
+    _wfound = [1]
+else:
+    _wfound = ck.parallel([_wcases[i::8] for i in range(8)], lambda chunk: sum(wpath_case(c) for c in chunk), jobs=8 if T != 'quick' else 4)
 if not sum(f or 0 for f in _wfound):
     ck.inconclusive.append('P5 vacuous: find_weighted_path never returned a path')
 ck.functions += ['GraphEngine::find_weighted_path', 'GraphEngine::reconstruct_weighted_path', 'GraphEngine::extract_edge_weight']
